@@ -42,6 +42,10 @@ claim("C01", "who-may-mutate the write buffer, must-held-lock dataflow at take/s
       "Static skeleton of ordered exactly-once delivery: one FIFO with one drainer (only sendPacket pushes, only flush takes, under flushMu, and sends exactly the taken slice to a writable current transport); one batch in flight per transport (writable cleared before the send goroutine, restored only in the completion epilogue after drain / on a new poll); encode+write under the transport mutex; the per-packet loops of websocket/webtransport have no error-free exit other than exhaustion; upgrade hand-off clearTransport ≺ setTransport ≺ flush; AllAndClear is one critical section; frame kind Text iff *StringBuffer. Byte identity, eventual delivery, order across goroutines and loss-freedom across the upgrade window are not decided.",
       TB, "DESIGN.md §3 C01")
 
+claim("C02", "edge dominance of delivery emits by the open-state test, who-may-emit, loop-edge reachability (close stops the payload), call-site enumeration of decode/dispatch, absence of go statements on the dispatch chain, who-may-call onPacket",
+      "Static skeleton of once-in-order inbound delivery: every delivery emit in onPacket is dominated by ReadyState()==open and message/data are emitted only there, once each on the MESSAGE edge with the packet's own Data; polling.OnData stops at a close packet and hands each loop variable to OnPacket once; a websocket/webtransport frame is decoded as exactly one packet with the buffer kind matching the frame type and only on the read-success edge; the dispatch chain contains no go statement (delivery order = payload order); candidate transports are never wired to onPacket; JSONP bodies are taken from the d field only. Decoding correctness for all payload shapes (external parser, regexp semantics) and byte identity are not decided.",
+      TB, "DESIGN.md §3 C02")
+
 UNDER_CONSTRUCTION = "static rule set designed in DESIGN.md §3 but its checker is not built yet in this revision; not claimed until it is"
 
 def main():
